@@ -1,6 +1,7 @@
 import PncProofs.UamivLemmas
 import PncModel.Camx.Slab
 import PncProofs.LanduseThms
+import PncProofs.CloudRainLemmas
 
 /-!
 # C09 — binary files conform to the published layout: property theorems (uamiv family)
@@ -170,5 +171,20 @@ theorem landuse_counts (cells : Nat) (f : Landuse.LFile) (h : Landuse.WF cells f
 /-- **C09 (landuse: the reader on reference files).** the reader presents exactly the encoded content -/
 theorem landuse_read (cells : Nat) (f : Landuse.LFile) (h : Landuse.WF cells f) :
     Landuse.read cells (Landuse.write f) = some f := Landuse.read_write cells f h
+
+/-- **C09 (wind: the reader on reference files).** the memory-mapped wind reader, given the grid size, presents exactly
+the encoded steps — any number of steps (one included), layers, cells ≥ 2, either header variant, any payload -/
+theorem wind_read (cells nz h : Nat) (steps : List Wind.WStep) (w : Wind.WFw cells nz h steps) :
+    Wind.read cells (Wind.encode steps) = some steps := Wind.read_encode cells nz h steps w
+
+/-- **C09 (cloud/rain: the reader on reference files).** the memory-mapped cloud/rain reader presents exactly the
+encoded description, grid and steps, for 3- and 5-variable files that are not ambiguous in size -/
+theorem cloud_rain_read (nv : Nat) (f : CloudRain.CFile) (w : CloudRain.WFc nv f) :
+    CloudRain.read (CloudRain.encode f) = some f := CloudRain.read_encode nv f w
+
+/-- non-vacuity: a two-step wind file with a three-word header, and a one-step 3-variable cloud/rain file -/
+example : Wind.WFw 2 1 3 [⟨1, 19200, some 0, [[1, 2], [3, 4]]⟩, ⟨2, 19200, some 0, [[5, 6], [7, 8]]⟩] ∧
+    CloudRain.WFc 3 ⟨[1, 2], 2, 1, 1, [⟨7, 19200, [[1, 2], [3, 4], [5, 6]]⟩]⟩ := by
+  refine ⟨⟨by decide, by decide, by decide, by decide, by decide⟩, ⟨by decide, by decide, by decide⟩⟩
 
 end Props.C09
